@@ -90,6 +90,9 @@ def pbkdf2_lines(rnd, n_extra):
         for c in ((1, 2, 3, 20) if dk == 33 else (1, 2)):
             for sl in ((0, 8, 55, 59, 60, 61, 64, 100) if c <= 2 else (8, 60)):
                 L.append("pbkdf2 %s %s %d %d" % (hx(rbytes(rnd, rnd.choice([0, 8, 64, 65, 100]))), hx(rbytes(rnd, sl)), c, dk))
+    # more than 255 / 511 output blocks: the block index no longer fits one byte of INT(i)
+    for dk, c in ((8160, 1), (8161, 1), (8192, 2), (16352 + 33, 1)):
+        L.append("pbkdf2 %s %s %d %d" % (hx(rbytes(rnd, 9)), hx(rbytes(rnd, 7)), c, dk))
     for _ in range(n_extra):
         L.append("pbkdf2 %s %s %d %d" % (hx(rbytes(rnd, rnd.randint(0, 130))), hx(rbytes(rnd, rnd.randint(0, 130))), rnd.randint(1, 20), rnd.randint(1, 100)))
     return L
